@@ -461,8 +461,17 @@ def _work(task):
                 continue
             if s in L["full2_set"]:
                 acc.add("switch_sequences_already_in_tree_sweep")
-                continue
-            run_shape(s, acc, parser, "switch-seq")
+            else:
+                run_shape(s, acc, parser, "switch-seq")
+            # the same body behind a pragma, and (single statements) unbraced
+            items = s[2][1]
+            variants = [("switch", None, ("pp", (("pragma", form, None),), s[2])) for form in FORMS]
+            if len(items) == 1 and items[0][0] not in ("decl", "pragma") and not M._tail_open(items[0]):
+                variants.append(("switch", None, items[0]))
+                variants += [("switch", None, ("pp", (("pragma", form, None),), items[0])) for form in FORMS]
+            for v in variants:
+                if v not in L["full2_set"]:
+                    run_shape(v, acc, parser, "switch-seq-variant")
         acc.samples.append(M.body_text(M.label(M.switch_from_sequence(("case", "default", "stmt", "pragma_op", "switch")))))
     elif kind == "outer":
         _, ctx, lo, hi = task
@@ -568,7 +577,9 @@ def run(tier):
         "only where C11 allows a declaration")
     R.assumptions += [
         "case/default labels reached through anything but a direct chain of case/default prefixes of a block item "
-        "of the switch body (a label, an if, a loop, an inner block, a pragma-wrapped statement) are opaque to the regrouping",
+        "of the switch body (a label, an if, a loop, an inner block, a pragma-wrapped statement) are opaque to the regrouping; "
+        "the Compound that stands for a pragma-prefixed switch body counts as the switch body (its items are regrouped, "
+        "a braced block behind the pragma is an inner block)",
         "a pragma in front of a substatement wraps it as Compound([pragmas..., stmt]) (test_pragmacomp_or_statement)",
         "an empty switch block is Compound(block_items=[]) (the regrouping always builds a list); '{}' elsewhere is Compound(None)",
     ]
